@@ -32,6 +32,10 @@ CLAIMED.update({
     'C14': dict(ref='4/C14', text='bounded symbolic model checking of a symbolic building against the same building with a symbolic non-negative increment of on-site electricity production at every step (regulatory factor sets, k_exp symbolic): non-renewable energy, CO2 (steps A and B) and grid-delivered energy of the second are <= those of the first, exactly, through instances of the solver-proved monotonicity lemmas of + and - and of the axioms for * and / (flagged), or by cvc5; the load-matching half and the RER clause are mostly beyond the lemma engine and come back INCONCLUSIVE unless violated'),
     'C16': dict(ref='4/C16', text='reachability of panics by bounded symbolic execution: for four base files and a corruption grammar (dropped / duplicated / swapped lines and fields, truncated or empty value lists, unknown tags, non-numeric tokens, output / auxiliary / demand lines first, only one line, legacy lines, two demands of different length) with every numeric field ranging over all 2^32 bit patterns (NaN, infinities, negatives, subnormals), every explored path of parse, normalize, strip, energy_performance, the DHW fraction and the three renderers ends in a value or a typed error; every path witness is also given to the real cteepbd binary built from the current tree in the dev and release profile, with and without -F, whose exit status must be 0/1/64/65/73/74 within 10 s; paths beyond the per-unit budget are reported INCONCLUSIVE; arbitrary byte-level corruption and non-UTF-8 input are outside the claim'),
 })
+CLAIMED.update({
+    'C17': dict(ref='4/C17', text='bounded symbolic model checking with numbers abstracted as tokens that denote their value: on every feasible path each slot of the plain report (C_ep ren/nren/tot, E_CO2, RER, RER_nrb, k_exp, Area_ref, energy totals, the sorted per-service tables), of the XML document (kexp, AreaRef, Epm2, every value list in order) names the node of the documented field, the JSON document reads back into a structure whose every leaf is the original node (the three-decimal rounding of RenNrenCo2 included); the XML of every explored result (comments with < > & quotes backslash and non-ASCII, demands present or absent) is checked by a strict well-formedness scanner; decimal rendering ({:.1}, {:.2}, {:.3}) and escape_xml over all strings are outside the claim (the MIR-to-CBMC encoding of escape_xml planned in DESIGN.md 2.3 was not built)', note=NOTE + '; reduced strength: decimal formatting is abstracted, strings are concrete'),
+    'C18': dict(ref='4/C18', text='bounded symbolic model checking with numbers abstracted as tokens that denote their value: components written with Display and parsed back have the same metadata, the same components in the same order with the same tags, ids, comments and value nodes, the same demands; factors likewise; evaluating the re-read pair gives leaf-identical results; legacy lines, comments, AUX / SALIDA / DEMANDA lines, negative ids and automatically completed components included; a change of the printed precision is not detected (stated bound)', note=NOTE + '; reduced strength: decimal formatting is abstracted'),
+})
 NA_DEFAULT = 'check not built yet (framework under construction; see DESIGN.md section 10)'
 NA = {}
 
